@@ -326,7 +326,7 @@ pub fn run(ctx: &mut Ctx, c07: bool) {
     let mut fails: Vec<J> = vec![];
     plain_stack_cases(ctx, &mut hist, &mut fails);
     let pools = crate::docprops::name_pools();
-    let n = if ctx.thorough { if c07 { 150000 } else { 120000 } } else if c07 { 6000 } else { 6000 };
+    let n = if ctx.thorough { if c07 { 60000 } else { 50000 } } else if c07 { 6000 } else { 6000 };
 
     let mut cases: Vec<(Vec<Vec<u8>>, String)> = vec![];
     // exhaustive truncation of a few small documents
